@@ -60,7 +60,7 @@ class World:
     required_probes = ["save_inside_basis_context_transformed", "load_inside_basis_context", "save_inside_units_context",
                        "load_inside_units_context", "save_and_load_in_different_contexts", "fileobject_parcel", "path_parcel",
                        "scopy", "savedir_loaddir", "export_with_axis", "export_complex", "export_2d", "failed_write_then_good_save",
-                       "nested_basis_and_units", "fault_unwinds", "large_file_rewritten", "format:.txt", "format:.npy", "format:.npz", "format:.mat", "format:.dat"]
+                       "nested_basis_and_units", "fault_unwinds", "large_file_rewritten", "two_directories_in_one_session", "format:.txt", "format:.npy", "format:.npz", "format:.mat", "format:.dat"]
     required_faults = ["write_ENOSPC", "F1_simfault"]
     components = {
         "real": ["Saveable.save/load/scopy/savedir/loaddir", "Parcel / load_parcel (dill)", "DataSaveable.save_data/load_data, "
@@ -615,16 +615,21 @@ class Runner:
             return
         d = os.path.join(self.scratch, "dir%d" % i)
         a, b = self.items[k1], self.items[k2]
+        # every directory gets its own tags (a directory must only ever list what was saved into it)
+        t1, t2 = 10 * i + 1, 10 * i + 2
         try:
-            a.real.savedir(d, tag=1)
-            b.real.savedir(d, tag=2)
+            a.real.savedir(d, tag=t1)
+            b.real.savedir(d, tag=t2)
             out = a.real.loaddir(d)
         except Exception as e:
             raise Violation("savedir-raises", "op %d: %s: %s" % (i, type(e).__name__, e))
-        check(sorted(out.keys()) == [1, 2], "savedir-tags", "op %d: tags %r" % (i, sorted(out.keys())))
+        check(sorted(out.keys()) == [t1, t2], "savedir-tags", "op %d: directory lists tags %r, saved %r" % (i, sorted(out.keys()), [t1, t2]))
         self.ctx.probe("savedir_loaddir")
-        self._register_loaded(i, {"src": k1, "cls": a.cls, "ctx": self.context_signature()}, out[1], "savedir/loaddir")
-        self._register_loaded(i, {"src": k2, "cls": b.cls, "ctx": self.context_signature()}, out[2], "savedir/loaddir")
+        self.nsavedir = getattr(self, "nsavedir", 0) + 1
+        if self.nsavedir >= 2:
+            self.ctx.probe("two_directories_in_one_session")
+        self._register_loaded(i, {"src": k1, "cls": a.cls, "ctx": self.context_signature()}, out[t1], "savedir/loaddir")
+        self._register_loaded(i, {"src": k2, "cls": b.cls, "ctx": self.context_signature()}, out[t2], "savedir/loaddir")
         self.ctx.ev(i, "savedir", k1, k2)
         self.ctx.cov("savedir", a.cls, b.cls)
 
